@@ -16,6 +16,20 @@ var (
 	caseless       = []rng{{'0', '9'}, {0x4E00, 0x4E80}, {0x3042, 0x3093}, {0x1F600, 0x1F64F}, {0x10000, 0x1005D}, {0x20000, 0x20040}}
 )
 
+// hostile lists caseless code points that text-handling code is tempted to
+// strip, fold, stop at or replace: C0/C1 controls and DEL, line terminators,
+// no-break and zero-width spaces, the byte-order mark, the replacement
+// character, non-characters, private use, and the last code points before the
+// surrogate block and of the code space. All are valid UTF-8 scalar values
+// (never surrogates) on which upper- and lower-casing are the identity (the
+// unit test checks both). The order is "most tempting first": rapid shrinks an
+// index towards 0.
+var hostile = []rune{
+	0x00, '\n', '\r', '\t', 0x01, 0x0B, 0x0C, 0x1B, 0x1F, 0x7F, 0x80, 0x85, 0x9F, 0xA0, 0xAD,
+	0x200B, 0x200D, 0x200E, 0x2028, 0x2029, 0x202E, 0x2060, 0x3000,
+	0xD7FF, 0xE000, 0xF8FF, 0xFEFF, 0xFFFD, 0xFFFE, 0xFFFF, 0xE0001, 0xFFFFF, 0x10FFFF,
+}
+
 // Lower is the reference lower-casing on the alphabet (identity elsewhere).
 func Lower(r rune) rune {
 	switch {
@@ -64,7 +78,7 @@ func AllRunes() []rune {
 			}
 		}
 	}
-	return out
+	return append(out, hostile...)
 }
 
 func pick(t *rapid.T, set []rng, label string) rune {
@@ -76,15 +90,17 @@ func pick(t *rapid.T, set []rng, label string) rune {
 func Rune(t *rapid.T, exclude string) rune {
 	for {
 		var r rune
-		switch rapid.IntRange(0, 9).Draw(t, "runeClass") {
+		switch rapid.IntRange(0, 10).Draw(t, "runeClass") {
 		case 0, 1, 2, 3:
 			r = rune(rapid.IntRange(0x20, 0x7e).Draw(t, "ascii"))
 		case 4, 5:
 			r = pick(t, upperRanges, "upper")
 		case 6, 7:
 			r = pick(t, lowerRanges, "lower")
-		default:
+		case 8, 9:
 			r = pick(t, caseless, "caseless")
+		default:
+			r = hostile[rapid.IntRange(0, len(hostile)-1).Draw(t, "hostile")]
 		}
 		ok := true
 		for _, x := range exclude {
@@ -100,9 +116,21 @@ func Rune(t *rapid.T, exclude string) rune {
 	}
 }
 
-// String draws a string of 0..maxRunes runes.
+// LongTail is how far beyond maxRunes the long-tail length class of String reaches.
+const LongTail = 300
+
+// String draws a string of usually 0..maxRunes runes; one draw in twelve comes
+// from a long tail of maxRunes+1..maxRunes+LongTail runes, so that no caller's
+// strings stay below the field widths (15, 20, 32, 64, 255 ...) at which
+// implementations are tempted to truncate. The long class is the highest class
+// value so that shrinking moves towards short strings.
 func String(t *rapid.T, label string, maxRunes int, exclude string) string {
-	n := rapid.IntRange(0, maxRunes).Draw(t, label+"Len")
+	var n int
+	if rapid.IntRange(0, 11).Draw(t, label+"LenClass") == 11 {
+		n = maxRunes + rapid.IntRange(1, LongTail).Draw(t, label+"LongLen")
+	} else {
+		n = rapid.IntRange(0, maxRunes).Draw(t, label+"Len")
+	}
 	rs := make([]rune, n)
 	for i := range rs {
 		rs[i] = Rune(t, exclude)
